@@ -1,6 +1,14 @@
 package providers
 
-import "github.com/buzzfeed/sso/internal/pkg/singleflight"
+import (
+	"github.com/buzzfeed/sso/internal/pkg/groups"
+	"github.com/buzzfeed/sso/internal/pkg/singleflight"
+)
 
 // VerifGroup exposes the coalescing group of the authenticator-side middleware to the /verif harness.
 func (p *SingleFlightProvider) VerifGroup() *singleflight.Group { return p.single }
+
+// VerifPurge fires the TTL purge of one key of the group cache (what a LocalCache timer goroutine does).
+func (p *GroupCache) VerifPurge(email, joined string) {
+	p.cache.Purge(groups.CacheKey{Email: email, AllowedGroups: joined})
+}
